@@ -14,6 +14,7 @@ def run(ck):
         mprogs += machine.run_machine(ck, "U1", "fermionic", "PoolU1t", "OpsContract", rank=2, depth=3, mod=200, tids=_tids)
     if ck.tier != "quick":
         mprogs += machine.run_machine(ck, "Z2", "fermionic", "PoolZ2s", "OpsContract", rank=2, depth=3, mod=150, tids=_tids)
+    mprogs += machine.run_machine(ck, "Z2", "fermionic", "PoolZ2t", "OpsEinsum", rank=3, depth=2 if ck.tier == "quick" else 3, mod=40 if ck.tier == "quick" else 400, tids=_tids)
     ck.conform(mprogs)
     q = ck.tier == "quick"
     tids = gen.Tids()
